@@ -123,5 +123,5 @@ def run(pid, tier):
         from . import phantoms, check_manifest
         phantoms.phantoms_part(tier, rep, rng)
         # the phantom batch of a prepared manifest and the phantom manual records of sampled phantom cards
-        check_manifest.manifest_part(rep, tier, rng, want=["prep", "phantom_mvrs", "exc:*"])
+        check_manifest.manifest_part(rep, tier, rng, want=["prep", "prep:*", "phantom_mvrs", "exc:*"])
     return rep.finish()
